@@ -296,7 +296,9 @@ pub fn run_within(board: &Board, case: &Case, o: &Opts, allowance: std::time::Du
     hooks::log_arm(false);
     if o.observe {
         out.cache_at_cut = hooks::tt_take_snapshot();
-        out.cache_at_end = hooks::tt_contents();
+        if out.cache_at_cut.is_some() {
+            out.cache_at_end = hooks::tt_contents();
+        }
     }
     hooks::tt_observe(false);
     hooks::tt_set_neutral(false);
